@@ -150,10 +150,14 @@ impl<T: ArrayValue> Array<T> {
             return Ok(());
         }
         let elem_count = validate_size_of::<T>([count - 1, self.data.len()])?;
+        if elem_count == 0 {
+            // There is nothing to replicate, but the new shape must still be valid
+            validate_size_of::<T>([count].into_iter().chain(self.shape.iter().copied()))?;
+        }
         let has_fill = fill.is_some();
         if let Some(fill) = fill {
             self.data.extend_repeat_fill(&fill, elem_count);
-        } else {
+        } else if elem_count > 0 {
             self.data.reserve(elem_count);
             let row = self.data.to_vec();
             for _ in 1..count {
